@@ -1,19 +1,30 @@
-//! Shared, append-only, content-addressed block store usable from many worker threads.
+//! Content-addressed block store shared by many worker threads.
+//!
+//! Two layers: a *shared* sharded map that is only written between exploration levels
+//! (`commit` / `absorb`, single-threaded), and a per-handle *local overlay* receiving all
+//! writes. Workers `fork()` the store, so that during a level the shared layer is read-only
+//! and lock-free in practice (readers only).
 use cid::Cid;
 use fvm_ipld_blockstore::Blockstore;
 use std::collections::HashMap;
 use std::sync::atomic::{AtomicUsize, Ordering};
-use std::sync::{Arc, RwLock};
+use std::sync::{Arc, Mutex, RwLock};
 
 const SHARDS: usize = 64;
+pub type Blocks = HashMap<Cid, Arc<[u8]>>;
 
-pub struct Inner {
-    shards: Vec<RwLock<HashMap<Cid, Arc<[u8]>>>>,
+pub struct Shared {
+    shards: Vec<RwLock<Blocks>>,
     bytes: AtomicUsize,
 }
 
 #[derive(Clone)]
-pub struct Store(pub Arc<Inner>);
+pub struct Store {
+    shared: Arc<Shared>,
+    local: Arc<Mutex<Blocks>>,
+    /// blocks written since the last `keep()` / `discard()` (one transition's garbage or gain)
+    pending: Arc<Mutex<Blocks>>,
+}
 
 impl Default for Store {
     fn default() -> Self {
@@ -23,39 +34,91 @@ impl Default for Store {
 
 impl Store {
     pub fn new() -> Self {
-        Store(Arc::new(Inner {
-            shards: (0..SHARDS).map(|_| RwLock::new(HashMap::new())).collect(),
-            bytes: AtomicUsize::new(0),
-        }))
+        Store {
+            shared: Arc::new(Shared {
+                shards: (0..SHARDS).map(|_| RwLock::new(HashMap::new())).collect(),
+                bytes: AtomicUsize::new(0),
+            }),
+            local: Arc::new(Mutex::new(HashMap::new())),
+            pending: Arc::new(Mutex::new(HashMap::new())),
+        }
     }
-    fn shard(&self, k: &Cid) -> &RwLock<HashMap<Cid, Arc<[u8]>>> {
+    /// A handle on the same shared layer with a fresh, private overlay.
+    pub fn fork(&self) -> Store {
+        Store {
+            shared: self.shared.clone(),
+            local: Arc::new(Mutex::new(HashMap::new())),
+            pending: Arc::new(Mutex::new(HashMap::new())),
+        }
+    }
+    fn shard(&self, k: &Cid) -> &RwLock<Blocks> {
         let d = k.hash().digest();
         let i = if d.is_empty() { 0 } else { d[d.len() - 1] as usize % SHARDS };
-        &self.0.shards[i]
+        &self.shared.shards[i]
     }
-    /// Total payload bytes held (for memory caps in the explorer).
+    /// Move this handle's overlay out (to be `absorb`ed by the owner of the shared layer).
+    pub fn take_local(&self) -> Blocks {
+        self.keep();
+        std::mem::take(&mut *self.local.lock().unwrap())
+    }
+    /// Keep the blocks written since the last keep/discard (the transition led to a new state).
+    pub fn keep(&self) {
+        let mut p = self.pending.lock().unwrap();
+        if p.is_empty() {
+            return;
+        }
+        let mut l = self.local.lock().unwrap();
+        for (k, v) in p.drain() {
+            l.insert(k, v);
+        }
+    }
+    /// Drop the blocks written since the last keep/discard (rejected or duplicate transition).
+    pub fn discard(&self) {
+        self.pending.lock().unwrap().clear();
+    }
+    /// Publish blocks into the shared layer.
+    pub fn absorb(&self, blocks: Blocks) {
+        for (k, v) in blocks {
+            let mut w = self.shard(&k).write().unwrap();
+            if !w.contains_key(&k) {
+                self.shared.bytes.fetch_add(v.len() + 64, Ordering::Relaxed);
+                w.insert(k, v);
+            }
+        }
+    }
+    /// Publish this handle's own overlay.
+    pub fn commit(&self) {
+        let l = self.take_local();
+        self.absorb(l);
+    }
+    /// Total payload bytes held in the shared layer (for memory caps in the explorer).
     pub fn bytes(&self) -> usize {
-        self.0.bytes.load(Ordering::Relaxed)
+        self.shared.bytes.load(Ordering::Relaxed)
     }
     pub fn blocks(&self) -> usize {
-        self.0.shards.iter().map(|s| s.read().unwrap().len()).sum()
+        self.shared.shards.iter().map(|s| s.read().unwrap().len()).sum()
     }
 }
 
 impl Blockstore for Store {
     fn get(&self, k: &Cid) -> anyhow::Result<Option<Vec<u8>>> {
+        if let Some(b) = self.pending.lock().unwrap().get(k) {
+            return Ok(Some(b.to_vec()));
+        }
+        if let Some(b) = self.local.lock().unwrap().get(k) {
+            return Ok(Some(b.to_vec()));
+        }
         Ok(self.shard(k).read().unwrap().get(k).map(|b| b.to_vec()))
     }
     fn put_keyed(&self, k: &Cid, block: &[u8]) -> anyhow::Result<()> {
-        let sh = self.shard(k);
-        if sh.read().unwrap().contains_key(k) {
+        let mut p = self.pending.lock().unwrap();
+        if p.contains_key(k) || self.local.lock().unwrap().contains_key(k) {
             return Ok(());
         }
-        let mut w = sh.write().unwrap();
-        if !w.contains_key(k) {
-            self.0.bytes.fetch_add(block.len() + 64, Ordering::Relaxed);
-            w.insert(*k, Arc::from(block));
+        if self.shard(k).read().unwrap().contains_key(k) {
+            return Ok(());
         }
+        p.insert(*k, Arc::from(block));
         Ok(())
     }
 }
